@@ -291,7 +291,50 @@ func targets() []*target {
 			},
 			params: []string{"(g_hex : bytes)", "(m_safeSet : list (Z * bool))", "(s_jsonMode : bool)", "(s_buf : bytes)", "(str : bytes)"},
 			result: "option bytes", final: "Some (s_buf)"},
+
+		// ---- the buffer methods of PrintCtx (C19) ----
+		bufT("empty", "buf_empty", nil, "bool", "false", false),
+		bufT("Len", "buf_len", nil, "Z", "0", false),
+		bufT("Reset", "buf_reset", nil, "bres unit bstate", "", true),
+		bufT("Truncate", "buf_truncate", []string{"(n : Z)"}, "bres unit bstate", "", true),
+		bufT("Read", "buf_read", []string{"(p : gslice)"}, "bres (Z * err) (bstate * gslice)", "", true),
+		bufT("Next", "buf_next", []string{"(n : Z)"}, "bres gslice bstate", "", true),
+		bufT("ReadByte", "buf_read_byte", nil, "bres (Z * err) bstate", "", true),
+		bufT("ReadRune", "buf_read_rune", nil, "bres (Z * Z * err) bstate", "", true),
+		bufT("UnreadRune", "buf_unread_rune", nil, "bres err bstate", "", true),
+		bufT("UnreadByte", "buf_unread_byte", nil, "bres err bstate", "", true),
 	}
+}
+
+// bufT: a method of PrintCtx on the state (s.buf, s.off, s.lastRead).  A []byte is a gslice (visible part,
+// spare capacity); the function ends in BOk results state / BRange state (an index or slice expression out
+// of range) / BPanic v state (panic(v)); errors are the constants of Model/Buffer.v.
+func bufT(fn, coq string, params []string, result, final string, eff bool) *target {
+	t := &target{pkg: slogPkg, recv: "PrintCtx", fn: fn, coq: coq, file: "Buffers", strict: true, fallback: "BufRef." + coq + "_ref",
+		tymap:  map[string]string{"[]byte": "gslice", "error": "err"},
+		nils:   map[string]string{"err": "ENil"},
+		opaque: map[string]string{"io.EOF": "EEOF", "errUnreadByte": "EUnreadByte", "io.ErrShortWrite": "EShortWrite", "ErrTooLarge": "p_toolarge", "errNegativeRead": "p_negread"},
+		params: append([]string{"(s_buf : gslice)", "(s_off s_lastRead : Z)"}, params...), result: result, final: final,
+		calls: map[string]callSpec{
+			"*PrintCtx.empty":         {pure: "buf_empty s_buf s_off s_lastRead"},
+			"*PrintCtx.Len":           {pure: "buf_len s_buf s_off s_lastRead"},
+			"*PrintCtx.Reset":         {state: "buf_reset s_buf s_off s_lastRead", bres: true, sub: []string{"s_buf", "s_off", "s_lastRead"}},
+			"errors.New":              {pure: "EUnreadRune"},
+			"utf8.DecodeRune":         {res: "decode_rune_z (sl_bytes %0)"},
+			"utf8.DecodeRuneInString": {res: "decode_rune_z %0"},
+		}}
+	if eff {
+		t.effects = []string{"s_buf", "s_off", "s_lastRead"}
+		st := "(s_buf, s_off, s_lastRead)"
+		if fn == "Read" {
+			t.effects = append(t.effects, "p")
+			st = "(s_buf, s_off, s_lastRead, p)"
+		}
+		t.panicT, t.panicFmt, t.okfmt = "BRange "+st, "BPanic %s "+st, "BOk (%s) %s"
+		t.final = "BOk tt " + st
+		t.comment = "(BOk results state | BRange state | BPanic v state)"
+	}
+	return t
 }
 
 // asciiRuneArg: strings.IndexRune(s, r) is the index of the BYTE r only for a constant r < utf8.RuneSelf
@@ -321,6 +364,7 @@ var genFiles = [][2]string{
 	{"Assembly", "Require Import Verif.Model.Base Verif.Model.Decision Verif.Model.GoSem Verif.Model.Attrs Verif.Model.Collect Verif.Model.CollectRef."},
 	{"Paths", "Require Import Verif.Model.Base Verif.Model.Decision Verif.Model.GoSem Verif.Model.Path Verif.Model.PathRef."},
 	{"Escapes", "Require Import Verif.Model.Base Verif.Model.Decision Verif.Model.GoSem Verif.Model.Utf8 Verif.Model.EscRef."},
+	{"Buffers", "Require Import Verif.Model.Base Verif.Model.Decision Verif.Model.GoSem Verif.Model.Utf8 Verif.Model.Buffer Verif.Model.BufRef."},
 	{"LevelNames", "Require Import Verif.Model.Base Verif.Model.Decision Verif.Model.Dec Verif.Model.GoSem Verif.Model.LevelRef."},
 }
 
